@@ -353,6 +353,7 @@ fn many_versions_validate(report: &mut Report) {
 pub fn run_c09(tier: &str, seed: u64, report: &mut Report) {
     let thorough = tier == "thorough";
     many_versions_validate(report);
+    big_index_interrupted_lost_boundary_hunk(report);
     // healthy side: every state of generated histories validates silently (full and quick)
     let n_hist = if thorough { 150 } else { 12 };
     for h in 0..n_hist {
@@ -536,6 +537,47 @@ pub fn run_c09(tier: &str, seed: u64, report: &mut Report) {
 /// Directed, real code + oracle: damage in a BIG index — one version of 10030 one-entry hunks (two index
 /// sub-directories); a hunk in the FULL first sub-directory is deleted, then another emptied: listing and
 /// validation must report it and every other entry must still be listed.
+/// Directed (C09): an INTERRUPTED version (head, no tail: nothing states its hunk count) of more than 10000 hunks
+/// loses the LAST hunk of its first, full index sub-directory (`i/00000/000009999`).  The numbering then has a
+/// gap (… 9998, 10000 …): validation must report it, in both modes.  Real code + oracle.
+fn big_index_interrupted_lost_boundary_hunk(report: &mut Report) {
+    let work = tempfile::tempdir().unwrap();
+    let (src, arch) = (work.path().join("src"), work.path().join("arch"));
+    std::fs::create_dir(&src).unwrap();
+    let n = 10_012usize;
+    for i in 0..n {
+        std::fs::write(src.join(format!("e{i:05}")), b"").unwrap();
+    }
+    create_archive(&arch);
+    let p = BackupParams { max_entries_per_hunk: 1, max_block_size: 64, small_file_cap: 16, owner: true, exclude: vec![] };
+    let b = real_backup(&arch, &src, &p, IceptConfig::default());
+    report.case("big-index-interrupted-lost-boundary-hunk", true);
+    report.hit("directed:big-index-interrupted(10013 hunks)-lost-hunk-9999");
+    if !b.result.starts_with("result ok") {
+        return;
+    }
+    // without its tail the version is what an interrupted backup leaves (the format's legal 'incomplete' state)
+    std::fs::remove_file(arch.join("b0000/BANDTAIL")).unwrap();
+    let healthy = real_validate(&arch, true, IceptConfig::default());
+    if reports_error(&healthy) {
+        report.oracle_fail("validate:false-alarm", json!({"directed": "big interrupted index"}), "validate reported an error on an interrupted version of more than 10000 hunks", json!(healthy.events.iter().take(2).collect::<Vec<_>>()));
+        return;
+    }
+    for k in [9999usize, 10000] {
+        let hunk = arch.join(format!("b0000/i/{:05}/{:09}", k / 10000, k));
+        let saved = std::fs::read(&hunk).unwrap();
+        std::fs::remove_file(&hunk).unwrap();
+        let case = json!({"directed": "interrupted version with 10013 index hunks", "damage": "delete", "hunk": k});
+        for quick in [true, false] {
+            let v = real_validate(&arch, quick, IceptConfig::default());
+            if !reports_error(&v) {
+                report.oracle_fail("validate:silent-on-hunk-delete-big-interrupted-index", case.clone(), "validation is silent although an index hunk in the MIDDLE of an interrupted version is missing (the entries after it come from nowhere)", json!({"quick": quick}));
+            }
+        }
+        std::fs::write(&hunk, saved).unwrap();
+    }
+}
+
 fn big_index_lost_hunk(report: &mut Report) {
     let work = tempfile::tempdir().unwrap();
     let (src, arch) = (work.path().join("src"), work.path().join("arch"));
